@@ -186,6 +186,52 @@ Theorem C20_data_come_from_the_stream : forall quic ex st p d, exchange_keys_of 
 Proof. exact exchange_from_stream_of. Qed.
 Print Assumptions C20_data_come_from_the_stream.
 
+(* ---------- KNOWN FINDING (net/ntske ReadData, not repaired): read by the record framing of
+   RFC 8915 - every body as long as its length field says - a message may hold a critical error
+   record (or select another algorithm, or hold no cookie) and the exchange succeeds all the same,
+   because ReadData reads exactly two bytes of a next-protocol, algorithm, port or error record
+   whatever its length field says.  The clause "succeeds only if the peer ... terminates the
+   record stream properly without an error record" is therefore FALSE of the code for framed
+   scripts in general (witness sc_hidden: algorithm record listing 15 and 1, then a critical
+   error record; harness kind ke.bodylen) ... *)
+Theorem C20_error_record_hidden_refuted :
+  ~ (forall quic ex st sc, sc_framed sc = true -> exporter_ok ex ->
+       snd (exchange_keys_of quic ex st (peer_of_script sc)) = 0 ->
+       stream_accepted (sc_recs sc) (sc_cut sc) = true).
+Proof. exact error_record_hidden_refuted. Qed.
+Print Assumptions C20_error_record_hidden_refuted.
+
+(* the witness spelled out: framed, a critical error record among the records delivered, not
+   acceptable - and both branches of exchangeKeys succeed with algorithm 15 and one cookie *)
+Theorem C20_error_record_hidden_witness :
+  sc_framed sc_hidden = true /\
+  (exists r, In r (delivered (sc_recs sc_hidden) (sc_cut sc_hidden)) /\ r_type r = 2 /\ r_crit r = true) /\
+  stream_accepted (sc_recs sc_hidden) (sc_cut sc_hidden) = false /\
+  exchange_keys ex_ctx (peer_of_script sc_hidden)
+  = ({| k_c2s := ctx_c2s; k_s2c := ctx_s2c; k_server := [49]; k_port := 123; k_cookies := [[7; 7; 7; 7]]; k_algo := 15 |}, 0) /\
+  exchange_keys_quic ex_ctx kzero (peer_of_script sc_hidden)
+  = ({| k_c2s := ctx_c2s; k_s2c := ctx_s2c; k_server := [49]; k_port := 10123; k_cookies := [[7; 7; 7; 7]]; k_algo := 15 |}, 0).
+Proof. exact hidden_witness. Qed.
+Print Assumptions C20_error_record_hidden_witness.
+
+(* ... and TRUE when the fixed-size records have 2-byte bodies (strict scripts): then the code's
+   parse is the framed parse - the record loop returns exactly what the oracle's scan of the
+   records delivered says - *)
+Theorem C20_code_parse_is_framed_parse_when_canonical : forall sc d0, sc_strict sc = true ->
+  match scan (delivered (sc_recs sc) (sc_cut sc)) acc0 with
+  | (Accepted, a) => read_stream (script_stream sc) d0 = (apply_acc d0 a, 0)
+  | (_, _) => snd (read_stream (script_stream sc) d0) <> 0
+  end.
+Proof. exact read_script. Qed.
+Print Assumptions C20_code_parse_is_framed_parse_when_canonical.
+
+(* - and the framed oracle (C20_ok and: a successful exchange with a framed script has an
+   acceptable framed message) accepts every history of the model against strict scripts *)
+Theorem C20_framed_oracle_holds_when_canonical : forall quic ms, Forall mop_ok ms -> Forall mop_strict ms ->
+  C20_framed_ok quic (map op_of ms) (model_run quic kzero ms) = true.
+Proof. exact framed_oracle_holds_strict. Qed.
+Print Assumptions C20_framed_oracle_holds_when_canonical.
+
 (* unrecognised non-critical records can be deleted from (or inserted into) a stream without
    changing data or result *)
 Theorem C20_noncritical_ignored : forall rs s d, Forall (fun r => rec_canonical r = true) rs ->
@@ -252,6 +298,29 @@ Theorem C20_rekey_only_when_pool_empty : forall quic ex st p c rest, k_cookies s
   fetch_data quic ex st p = (set_cookies st rest, {| fo_err := 0; fo_data := st; fo_exchanged := false |}).
 Proof. exact fetch_cached. Qed.
 Print Assumptions C20_rekey_only_when_pool_empty.
+
+(* StoreCookie keeps at most MaxStoredCookies = 8 unused cookies (fix for the pool cap): a pool of
+   at most 8 cookies stays at most 8 through any number of StoreCookie calls, and a pool that holds
+   8 or more is not changed by StoreCookie at all *)
+Theorem C20_store_cookie_cap : forall st cs, Z.of_nat (length (k_cookies st)) <= 8 ->
+  Z.of_nat (length (k_cookies (stores st cs))) <= 8.
+Proof. intros st cs. exact (stores_cap cs st). Qed.
+Print Assumptions C20_store_cookie_cap.
+
+Theorem C20_store_cookie_full_pool_unchanged : forall st c,
+  8 <= Z.of_nat (length (k_cookies st)) -> store_cookie st c = st.
+Proof. exact store_cookie_no_growth_above. Qed.
+Print Assumptions C20_store_cookie_full_pool_unchanged.
+
+(* FetchData is not capped: answered from the pool it removes one cookie; after an exchange the
+   pool is empty (failure) or the cookies the exchange returned minus the one handed out,
+   however many the key-exchange message held (C20_success_data: exactly the cookies issued) *)
+Theorem C20_fetch_pool_after : forall quic ex st p,
+  k_cookies (fst (fetch_data quic ex st p)) = tl (k_cookies st) \/
+  (k_cookies st = [] /\ (k_cookies (fst (fetch_data quic ex st p)) = [] \/
+     exists d, exchange_keys_of quic ex st p = (d, 0) /\ k_cookies (fst (fetch_data quic ex st p)) = tl (k_cookies d))).
+Proof. exact fetch_pool_after. Qed.
+Print Assumptions C20_fetch_pool_after.
 
 (* ---------- the hypotheses are satisfiable; concrete runs of the model ---------- *)
 
